@@ -577,10 +577,8 @@ impl Harness for ReqRespHarness {
         let pid = unsafe { libc::getpid() };
         let _ = leftovers("rr", pid);
         remove_leftovers("rr", pid);
-        let g = match errs.lock() {
-            Ok(g) => g,
-            Err(p) => p.into_inner(),
-        };
+        #[allow(unused_mut)]
+        let mut g = take_after_run(&errs);
         // the limit oracle belongs to C08, everything else to C11; a sibling's violation ends the run early
         let is_limit = |c: &str| LIMIT_CLASSES.contains(&c);
         let mine = g.errs.iter().find(|(c, _)| is_limit(c) == (self.prop == "C08"));
